@@ -51,6 +51,7 @@ type Profile struct {
 	Roundtrip   bool // export the final state, import it into a fresh application (C17)
 	Replica     bool // execute every history twice and compare the app hashes
 	Imported    bool // tenants and records (multi-recipient, weighted) imported through genesis
+	Erc20       bool // a registered ERC-20 token pair; most tenants use its denomination and are paid out through ConvertERC20
 }
 
 type pendRec struct {
@@ -113,7 +114,7 @@ func GenHistory(seed uint64, idx int, p Profile) History {
 		nv = 6 + r.Intn(2) // the chain runs with constant power 1 per validator: shares of 1/6 need six of them
 	}
 	g.nVals = nv
-	gen := HGenesis{NAccts: nv + 5, Funds: 1000000, Nft: p.Internal, OracleFee: p.OracleFee, BigFunds: p.Adversarial && r.Chance(50)}
+	gen := HGenesis{NAccts: nv + 5, Funds: 1000000, Nft: p.Internal, OracleFee: p.OracleFee, BigFunds: p.Adversarial && r.Chance(50), Erc20: p.Erc20}
 	for i := 0; i < nv; i++ {
 		gen.Powers = append(gen.Powers, int64(1+r.Intn(5)))
 		pb := ""
@@ -275,6 +276,9 @@ func (g *genState) settlementMsg() *Msg {
 	k := r.Intn(100)
 	if t == nil || k < 8 && len(g.tenants) < 4 {
 		denom := tenantDenoms[r.Intn(len(tenantDenoms))]
+		if g.p.Erc20 && r.Chance(70) {
+			denom = pairDenom
+		}
 		if g.p.Adversarial && r.Chance(20) {
 			denom = []string{"!!", "", "ab", "9x", "u tok"}[r.Intn(5)]
 		}
@@ -346,6 +350,11 @@ func (g *genState) settlementMsg() *Msg {
 		}
 		return &Msg{Kind: "cancel", Sender: g.senderFor(t), Tid: t.id, Req: req}
 	case k < 78:
+		if t.denom == pairDenom {
+			// coins deposited to a token-pair tenant are not what its payouts spend (they convert the TOKEN balance):
+			// such treasuries are funded by token mints (environment), coin deposits are not exercised
+			return nil
+		}
 		m := &Msg{Kind: "deposit", Sender: g.userFor(t.id), Tid: t.id, Denom: g.denomFor(t), Amount: fmt.Sprint(1 + r.Intn(1500))}
 		if r.Chance(5) {
 			m.Amount = "2000000" // more than the account holds
@@ -558,9 +567,17 @@ func (g *genState) block() {
 		amt := []string{"1", "7", "1000003", "6000000000000000000", "3000000000000000007", "123456789012345678901234", "999999999999999999"}[r.Intn(7)]
 		envs = append(envs, Env{Kind: "pool_fund", From: g.user(), Denom: []string{"asetl", "uusdc", "setl"}[r.Intn(3)], Amount: amt})
 	}
+	if g.p.Erc20 && len(g.tenants) > 0 && r.Chance(35) {
+		t := g.pickTenant()
+		if t.denom == pairDenom {
+			envs = append(envs, Env{Kind: "erc20_mint", To: -1 - int(t.id), Amount: fmt.Sprint(1 + r.Intn(700))})
+		}
+	}
 	if r.Chance(15) && len(g.tenants) > 0 {
 		t := g.pickTenant()
-		envs = append(envs, Env{Kind: "bank_send", From: g.userFor(t.id), To: -1 - int(t.id), Denom: t.denom, Amount: fmt.Sprint(1 + r.Intn(300))})
+		if t.denom != pairDenom { // coins sent to a token-pair treasury are not what it pays out: not exercised
+			envs = append(envs, Env{Kind: "bank_send", From: g.userFor(t.id), To: -1 - int(t.id), Denom: t.denom, Amount: fmt.Sprint(1 + r.Intn(300))})
+		}
 	}
 	if g.p.Internal {
 		if g.nftNext < 4 && r.Chance(40) {
